@@ -198,6 +198,8 @@ class Repo:
         return fold(mi.assigns[name], lambda n: self._const_lookup(mi, n))
 
     def _const_lookup(self, mi: ModuleInfo, name: str) -> Any:
+        if name in mi.functions and name not in mi.assigns:
+            return mi.functions[name]  # fold() inlines single-return helpers
         if name in mi.assigns:
             return fold(mi.assigns[name], lambda n: self._const_lookup(mi, n))
         if name in mi.imports:
@@ -232,40 +234,120 @@ class NotConstant(Exception):
 
 
 def fold(node: ast.expr, lookup: Callable[[str], Any] | None = None) -> Any:
-    """Constant folding of the table idioms of tokens.py / parser.py / pprint.py."""
+    """Constant folding of the table idioms of tokens.py / parser.py / pprint.py: literals, displays
+    (with *unpacking), set / sequence algebra, str.split and friends, dict views, comprehensions over
+    folded iterables, and calls of module-level helper functions whose body is a single return."""
     if isinstance(node, ast.Constant):
         return node.value
-    if isinstance(node, ast.Tuple):
-        return tuple(fold(e, lookup) for e in node.elts)
-    if isinstance(node, ast.List):
-        return [fold(e, lookup) for e in node.elts]
-    if isinstance(node, ast.Set):
-        return frozenset(fold(e, lookup) for e in node.elts)
+    if isinstance(node, (ast.Tuple, ast.List, ast.Set)):
+        items = []
+        for e in node.elts:
+            if isinstance(e, ast.Starred):
+                items.extend(fold(e.value, lookup))
+            else:
+                items.append(fold(e, lookup))
+        return tuple(items) if isinstance(node, ast.Tuple) else items if isinstance(node, ast.List) else frozenset(items)
     if isinstance(node, ast.Dict):
-        return {fold(k, lookup): fold(v, lookup) for k, v in zip(node.keys, node.values)}  # type: ignore[arg-type]
+        out = {}
+        for k, v in zip(node.keys, node.values):
+            if k is None:
+                out.update(fold(v, lookup))
+            else:
+                out[fold(k, lookup)] = fold(v, lookup)
+        return out
     if isinstance(node, ast.Name):
         if lookup is None:
             raise NotConstant(node.id)
         return lookup(node.id)
-    if isinstance(node, ast.BinOp) and isinstance(node.op, ast.BitOr):
-        return fold(node.left, lookup) | fold(node.right, lookup)
-    if isinstance(node, ast.BinOp) and isinstance(node.op, ast.Add):
-        return fold(node.left, lookup) + fold(node.right, lookup)
+    if isinstance(node, ast.BinOp):
+        ops = {ast.BitOr: lambda a, b: a | b, ast.BitAnd: lambda a, b: a & b, ast.Sub: lambda a, b: a - b, ast.BitXor: lambda a, b: a ^ b, ast.Add: lambda a, b: a + b, ast.Mult: lambda a, b: a * b}
+        f = ops.get(type(node.op))
+        if f is not None:
+            try:
+                return f(fold(node.left, lookup), fold(node.right, lookup))
+            except TypeError as ex:
+                raise NotConstant(str(ex))
+    if isinstance(node, ast.UnaryOp) and isinstance(node.op, (ast.USub, ast.Not)):
+        v = fold(node.operand, lookup)
+        return -v if isinstance(node.op, ast.USub) else (not v)
+    if isinstance(node, ast.Compare) and len(node.ops) == 1:
+        a, b = fold(node.left, lookup), fold(node.comparators[0], lookup)
+        cmp = {ast.Eq: lambda: a == b, ast.NotEq: lambda: a != b, ast.In: lambda: a in b, ast.NotIn: lambda: a not in b, ast.Lt: lambda: a < b, ast.LtE: lambda: a <= b, ast.Gt: lambda: a > b, ast.GtE: lambda: a >= b}.get(type(node.ops[0]))
+        if cmp is not None:
+            return cmp()
+    if isinstance(node, ast.BoolOp):
+        vals = [fold(v, lookup) for v in node.values]
+        return all(vals) if isinstance(node.op, ast.And) else any(vals)
+    if isinstance(node, ast.IfExp):
+        return fold(node.body, lookup) if fold(node.test, lookup) else fold(node.orelse, lookup)
+    if isinstance(node, ast.Subscript) and not isinstance(node.slice, ast.Slice):
+        try:
+            return fold(node.value, lookup)[fold(node.slice, lookup)]
+        except (KeyError, IndexError, TypeError) as ex:
+            raise NotConstant(str(ex))
+    if isinstance(node, (ast.ListComp, ast.SetComp, ast.GeneratorExp, ast.DictComp)):
+        results: list = []
+
+        def rec(gi: int, env: dict):
+            lk = lambda n: env[n] if n in env else (lookup(n) if lookup else (_ for _ in ()).throw(NotConstant(n)))
+            if gi == len(node.generators):
+                results.append((fold(node.key, lk), fold(node.value, lk)) if isinstance(node, ast.DictComp) else fold(node.elt, lk))
+                return
+            g = node.generators[gi]
+            for item in fold(g.iter, lk):
+                env2 = dict(env)
+                _bind_target(g.target, item, env2)
+                lk2 = lambda n, env2=env2: env2[n] if n in env2 else (lookup(n) if lookup else (_ for _ in ()).throw(NotConstant(n)))
+                if all(fold(c, lk2) for c in g.ifs):
+                    rec(gi + 1, env2)
+
+        rec(0, {})
+        if isinstance(node, ast.DictComp):
+            return dict(results)
+        return frozenset(results) if isinstance(node, ast.SetComp) else list(results)
     if isinstance(node, ast.Call):
         f = node.func
-        if isinstance(f, ast.Name) and f.id in ("frozenset", "set", "tuple", "list") and not node.keywords:
+        ctors = {"frozenset": frozenset, "set": frozenset, "tuple": tuple, "list": list, "sorted": sorted, "dict": dict, "len": len}
+        if isinstance(f, ast.Name) and f.id in ctors and not node.keywords:
             if not node.args:
-                return {"frozenset": frozenset, "set": frozenset, "tuple": tuple, "list": list}[f.id]()
-            v = fold(node.args[0], lookup)
-            return {"frozenset": frozenset, "set": frozenset, "tuple": tuple, "list": list}[f.id](v)
+                return ctors[f.id]()
+            return ctors[f.id](fold(node.args[0], lookup))
+        if isinstance(f, ast.Name) and lookup is not None:
+            target = lookup(f.id)
+            if isinstance(target, ast.FunctionDef):
+                body = [st for st in target.body if not (isinstance(st, ast.Expr) and isinstance(st.value, ast.Constant))]
+                if len(body) == 1 and isinstance(body[0], ast.Return) and body[0].value is not None and not node.keywords and not target.args.vararg and not target.args.kwarg:
+                    params = [a.arg for a in target.args.args]
+                    if len(node.args) <= len(params):
+                        env = {p: fold(a, lookup) for p, a in zip(params, node.args)}
+                        dflt = target.args.defaults
+                        for p, d in zip(params[len(params) - len(dflt) :], dflt):
+                            env.setdefault(p, fold(d, lookup))
+                        if set(env) == set(params):
+                            return fold(body[0].value, lambda n: env[n] if n in env else lookup(n))
         if isinstance(f, ast.Attribute) and not node.keywords:
             recv = fold(f.value, lookup)
             args = [fold(a, lookup) for a in node.args]
-            if isinstance(recv, str) and f.attr in ("split", "lower", "upper", "strip"):
+            if isinstance(recv, str) and f.attr in ("split", "lower", "upper", "strip", "splitlines", "replace"):
                 return getattr(recv, f.attr)(*args)
-            if isinstance(recv, frozenset) and f.attr == "union":
-                return recv.union(*args)
+            if isinstance(recv, frozenset) and f.attr in ("union", "intersection", "difference"):
+                return getattr(recv, f.attr)(*args)
+            if isinstance(recv, dict) and f.attr in ("keys", "values", "items"):
+                return list(getattr(recv, f.attr)())
     raise NotConstant(ast.dump(node)[:80])
+
+
+def _bind_target(t: ast.expr, v: Any, env: dict) -> None:
+    if isinstance(t, ast.Name):
+        env[t.id] = v
+    elif isinstance(t, (ast.Tuple, ast.List)):
+        vs = list(v)
+        if len(vs) != len(t.elts):
+            raise NotConstant("unpack")
+        for e, x in zip(t.elts, vs):
+            _bind_target(e, x, env)
+    else:
+        raise NotConstant("target")
 
 
 def src_of(node: ast.AST) -> str:
